@@ -70,6 +70,40 @@ def rule_r1(facts, col):
                 col.ok("C02.R1", body.q + ":readonly", body.where(), "read window body does not mutate the tag map")
 
 
+def _filtered_by_pos(facts, body):
+    """The loop that stores tags iterates `tags.iter().filter(|t| t.pos() < n)` (n = the count parameter): every
+    Iterator::next feeding the loop has a filter adaptor whose closure returns pos < n."""
+    nexts = [(bb, t) for bb, t in body.calls_to("std::iter::Iterator::next")]
+    okn = 0
+    for bb, t in nexts:
+        e = body.operand_expr(t["args"][0])
+        found = False
+        for x in walk(e):
+            if x.k == "call" and (x.q or "").split("::")[-1] == "filter" and len(x.args) >= 2:
+                clo = None
+                for y in walk(x.args[1]):
+                    if y.k == "agg" and y.ak == "closure":
+                        clo = y
+                if clo is None:
+                    continue
+                cb = facts.by_path.get(clo.q)
+                if cb is None:
+                    continue
+                # which upvar is n ?
+                n_up = [i for i, a in enumerate(clo.args or []) if any(z.k == "param" and z.idx == 2 for z in walk(a))]
+                for rb, si, r in assigns_to_return(cb):
+                    p = peel(r, through_try=False)
+                    if p.k == "bin" and p.op in ("Lt", "Gt"):
+                        a, b_ = (p.a, p.b) if p.op == "Lt" else (p.b, p.a)
+                        pa = peel(a, through_try=False)
+                        pb = peel(b_, through_try=False)
+                        if pa.k == "call" and pa.q == TAG_POS and pb.k == "field" and pb.idx in n_up:
+                            found = True
+        if found:
+            okn += 1
+    return okn >= 1
+
+
 def rule_r2(facts, col, rule_id="C02.R2"):
     """commit stores only tags with pos < n"""
     for body, bb, t, kind in tag_map_calls(facts):
@@ -103,6 +137,9 @@ def rule_r2(facts, col, rule_id="C02.R2"):
             if ok is not None:
                 guards.append((s, ok))
         good = [g for g in guards if must_pass_edge(body, bb, g)]
+        if not good and _filtered_by_pos(facts, body):
+            col.ok(rule_id, key, body.where(bb), "tags are taken from an iterator filtered by `t.pos() < n`")
+            continue
         if good:
             col.ok(rule_id, key, body.where(bb), "tag stored only behind tag.pos() < n (%s)" % body.where(good[0][0]))
         else:
